@@ -69,6 +69,16 @@ def handleChildEnv (j : Json) : Except String Json := do
   let e := EnvExport.childEnv (fun n => base.lookup n) dotenv se un chain
   return Json.mkObj [("env", Json.mkObj (names.map (fun n => (n, toJson (e n)))))]
 
+def handleWorkdir (j : Json) : Except String Json := do
+  let c : Workdir.Ctx ← fromJson? (← j.getObjVal? "ctx")
+  let a : Workdir.Attrs ← fromJson? (← j.getObjVal? "attrs")
+  let rootCtx : Workdir.Ctx ← fromJson? (← j.getObjVal? "rootCtx")
+  return Json.mkObj [("recipe", toJson (Workdir.recipeCwd c a)), ("backtick", toJson (Workdir.backtickCwd c)),
+    ("rootBacktick", toJson (Workdir.backtickCwd rootCtx)),
+    ("invocation_directory", toJson (Workdir.invocationDirectory c)),
+    ("justfile_directory", toJson (Workdir.justfileDirectory c)),
+    ("source_directory", toJson (Workdir.sourceDirectory c))]
+
 def handle (line : String) : Json :=
   match Json.parse line with
   | .error e => Json.mkObj [("fatal", s!"parse: {e}")]
@@ -81,6 +91,7 @@ def handle (line : String) : Json :=
       | "quote" => handleQuote j
       | "args" => handleArgs j
       | "childenv" => handleChildEnv j
+      | "workdir" => handleWorkdir j
       | "shsplit" => handleShSplit j
       | _ => throw s!"unknown op {op}"
     match r with
